@@ -256,6 +256,267 @@ theorem dir_complete (K : Inflate) (f : TileFormat) (c : TComp) (ts : List TileF
     simp only [beq_iff_eq]
     exact this
 
+/-! ### the tar / directory writers: container round trip -/
+
+/-- a file the writers produce: the metadata file or a tile file -/
+inductive Item where
+  | metaFile (payload : Bytes)
+  | tile (t : TileFile)
+
+def Item.file (f : TileFormat) (c : TComp) : Item → File
+  | .metaFile p => (some (metaName c), p)
+  | .tile t => dirFile f c t
+
+def Item.tile? : Item → Option TileFile
+  | .tile t => some t
+  | .metaFile _ => none
+
+theorem classify_meta (c : TComp) : classifyTar (metaName c) = .metaJson c := by
+  cases c <;> decide
+
+theorem tarStep_meta (K : Inflate) (c : TComp) (p : Bytes) (s : State) (h : ∃ raw, K.run c p = .ok raw) :
+    tarStep K s (some (metaName c), p) = .ok s := by
+  obtain ⟨raw, hr⟩ := h
+  unfold tarStep
+  simp only [classify_meta, hr]
+
+theorem dirStep_meta (K : Inflate) (c : TComp) (p : Bytes) (s : State) (h : ∃ raw, K.run c p = .ok raw) :
+    dirStep K s (some (metaName c), p) = .ok s := by
+  obtain ⟨raw, hr⟩ := h
+  unfold dirStep
+  cases c
+  · have : splitSlash (metaName .none) = ["tiles.json".toList] := by decide
+    simp only [this]
+    have h1 : parseU8 "tiles.json".toList = none := by decide
+    have h2 : metaNames.find? (fun m => m.1.toList = "tiles.json".toList) = some ("tiles.json", .none) := by decide
+    simp only [h1, h2, hr]
+  · have : splitSlash (metaName .gzip) = ["tiles.json.gz".toList] := by decide
+    simp only [this]
+    have h1 : parseU8 "tiles.json.gz".toList = none := by decide
+    have h2 : metaNames.find? (fun m => m.1.toList = "tiles.json.gz".toList) = some ("tiles.json.gz", .gzip) := by decide
+    simp only [h1, h2, hr]
+  · have : splitSlash (metaName .brotli) = ["tiles.json.br".toList] := by decide
+    simp only [this]
+    have h1 : parseU8 "tiles.json.br".toList = none := by decide
+    have h2 : metaNames.find? (fun m => m.1.toList = "tiles.json.br".toList) = some ("tiles.json.br", .brotli) := by decide
+    simp only [h1, h2, hr]
+
+theorem tarStep_eq_dirFile (K : Inflate) (f : TileFormat) (c : TComp) (t : TileFile) (h : t.ok) (s : State)
+    (hf : s.fmt = none ∨ s.fmt = some f) (hc : s.comp = none ∨ s.comp = some c) :
+    tarStep K s (dirFile f c t) = .ok ⟨some f, some c, ((t.x, t.y, t.z), t.payload) :: s.tiles⟩ := by
+  unfold tarStep dirFile
+  simp only [VtProofs.TarDir.classifyTar_formatName t.z t.x t.y f c h.1 h.2.1 h.2.2]
+  unfold addTile
+  have g1 : (s.fmt.isSome && decide (s.fmt ≠ some f)) = false := by
+    rcases hf with h | h <;> simp [h]
+  have g2 : (s.comp.isSome && decide (s.comp ≠ some c)) = false := by
+    rcases hc with h | h <;> simp [h]
+  rw [g1, g2]
+  simp
+
+/-- folding the reader's step over files the writers produce: metadata files leave the state
+    unchanged, tile files are collected (later ones in front) -/
+theorem fold_items (K : Inflate) (f : TileFormat) (c : TComp) (step : State → File → Outcome State)
+    (hmeta : ∀ s p, (∃ raw, K.run c p = .ok raw) → step s (some (metaName c), p) = .ok s)
+    (htile : ∀ (t : TileFile) (s : State), t.ok → (s.fmt = none ∨ s.fmt = some f) → (s.comp = none ∨ s.comp = some c) →
+      step s (dirFile f c t) = .ok ⟨some f, some c, ((t.x, t.y, t.z), t.payload) :: s.tiles⟩) :
+    ∀ (items : List Item) (s : State),
+      (∀ t ∈ items.filterMap Item.tile?, t.ok) → (∀ p, Item.metaFile p ∈ items → ∃ raw, K.run c p = .ok raw) →
+      (s.fmt = none ∨ s.fmt = some f) → (s.comp = none ∨ s.comp = some c) →
+      ∃ s', foldFiles step s (items.map (Item.file f c)) = .ok s' ∧
+        s'.tiles = ((items.filterMap Item.tile?).map fun t => ((t.x, t.y, t.z), t.payload)).reverse ++ s.tiles ∧
+        ((s.fmt = some f ∧ s.comp = some c) → (s'.fmt = some f ∧ s'.comp = some c)) ∧
+        (items.filterMap Item.tile? ≠ [] → s'.fmt = some f ∧ s'.comp = some c) := by
+  intro items
+  induction items with
+  | nil => intro s _ _ hf hc; exact ⟨s, rfl, by simp, id, by simp⟩
+  | cons it rest ih =>
+    intro s hok hm hf hc
+    cases it with
+    | metaFile p =>
+      have hstep := hmeta s p (hm p (by simp))
+      obtain ⟨s', h1, h2, h3, h5⟩ := ih s (by simpa [Item.tile?] using hok) (fun q hq => hm q (by simp [hq])) hf hc
+      have hfm : (Item.metaFile p :: rest).filterMap Item.tile? = rest.filterMap Item.tile? := by
+        simp [List.filterMap_cons, Item.tile?]
+      refine ⟨s', ?_, ?_, h3, ?_⟩
+      · simp only [List.map_cons, Item.file, foldFiles, hstep]; exact h1
+      · rw [hfm]; exact h2
+      · rw [hfm]; exact h5
+    | tile t =>
+      have hto : t.ok := hok t (by simp [Item.tile?])
+      have hstep := htile t s hto hf hc
+      obtain ⟨s', h1, h2, h3, _⟩ := ih ⟨some f, some c, ((t.x, t.y, t.z), t.payload) :: s.tiles⟩
+        (fun u hu => hok u (by simp only [List.filterMap_cons, Item.tile?]; exact List.mem_cons_of_mem _ hu))
+        (fun q hq => hm q (by simp [hq])) (Or.inr rfl) (Or.inr rfl)
+      refine ⟨s', ?_, ?_, fun _ => h3 ⟨rfl, rfl⟩, fun _ => h3 ⟨rfl, rfl⟩⟩
+      · simp only [List.map_cons, Item.file, foldFiles, hstep]; exact h1
+      · rw [h2]; simp [Item.tile?]
+
+theorem map_eta (l : List ((Nat × Nat × Nat) × Bytes)) :
+    l.map (fun t => (((t.1.1, t.1.2.1, t.1.2.2), t.2) : (Nat × Nat × Nat) × Bytes)) = l := by
+  induction l with
+  | nil => rfl
+  | cons a l ih => obtain ⟨⟨x, y, z⟩, b⟩ := a; simp only [List.map_cons, ih]
+
+/-- the list of files of the writers, as items -/
+def itemsOf (s : WSource) : List Item :=
+  .metaFile s.metaB :: (s.levels.flatMap s.stream).map fun t => .tile ⟨false, t.1.1, t.1.2.1, t.1.2.2, t.2⟩
+
+theorem writeFiles_eq (s : WSource) : writeFiles s = (itemsOf s).map (Item.file s.fmt s.comp) := by
+  unfold writeFiles itemsOf
+  simp only [List.map_cons, List.map_map, Item.file]
+  congr 1
+
+theorem tiles_of_items (s : WSource) :
+    (itemsOf s).filterMap Item.tile? = (s.levels.flatMap s.stream).map fun t => ⟨false, t.1.1, t.1.2.1, t.1.2.2, t.2⟩ := by
+  unfold itemsOf
+  simp only [List.filterMap_cons, Item.tile?, List.filterMap_map]
+  induction (s.levels.flatMap s.stream) with
+  | nil => rfl
+  | cons a l ih => simp [Item.tile?, Function.comp] at ih ⊢; exact ih
+
+/-- what the writers need from the source: valid coordinates, every coordinate streamed once, at
+    least one tile, metadata that inflates -/
+structure WOk (K : Inflate) (s : WSource) : Prop where
+  valid : ∀ t ∈ s.levels.flatMap s.stream, t.1.2.2 ≤ 31 ∧ t.1.1 < 4294967296 ∧ t.1.2.1 < 4294967296
+  nodup : ((s.levels.flatMap s.stream).map (·.1)).Nodup
+  nonempty : s.levels.flatMap s.stream ≠ []
+  metaOk : ∃ raw, K.run s.comp s.metaB = .ok raw
+
+/-- shared end of both proofs: the reader state built from the writers' files answers like the source -/
+theorem reader_of_state (s : WSource) (s' : State)
+    (h2 : s'.tiles = (((itemsOf s).filterMap Item.tile?).map fun t => ((t.x, t.y, t.z), t.payload)).reverse)
+    (hfc : s'.fmt = some s.fmt ∧ s'.comp = some s.comp) (K : Inflate) (ok : WOk K s) :
+    ∃ r, finish s' = .ok r ∧ r.fmt = s.fmt ∧ r.comp = s.comp ∧
+      (∀ t ∈ s.levels.flatMap s.stream, getTile r t.1.1 t.1.2.1 t.1.2.2 = .ok (some t.2)) ∧
+      (∀ x y z, (∀ t ∈ s.levels.flatMap s.stream, t.1 ≠ (x, y, z)) → getTile r x y z = .ok none) := by
+  rw [tiles_of_items, List.map_map] at h2
+  have hl : s'.tiles = ((s.levels.flatMap s.stream).map fun t => ((t.1.1, t.1.2.1, t.1.2.2), t.2)).reverse := by
+    rw [h2]; rfl
+  rw [map_eta] at hl
+  have htl : s'.tiles ≠ [] := by
+    rw [hl]; intro e; exact ok.nonempty (by simpa using e)
+  have hfin : finish s' = .ok ⟨s.fmt, s.comp, s'.tiles⟩ := by
+    unfold finish
+    cases hst : s'.tiles with
+    | nil => exact absurd hst htl
+    | cons a as => simp only [hfc.1, hfc.2]
+  have hnd : (s'.tiles.map (·.1)).Nodup := by
+    rw [hl, List.map_reverse, (List.reverse_perm _).nodup_iff]; exact ok.nodup
+  refine ⟨_, hfin, rfl, rfl, ?_, ?_⟩
+  · intro t ht
+    unfold getTile
+    congr 1
+    have hmem : t ∈ s'.tiles := by rw [hl, List.mem_reverse]; exact ht
+    exact find_unique _ hnd t hmem
+  · intro x y z hno
+    unfold getTile
+    congr 1
+    rw [Option.map_eq_none_iff, List.find?_eq_none]
+    intro p hp
+    rw [hl, List.mem_reverse] at hp
+    simp only [beq_iff_eq]
+    exact hno p hp
+
+/-- **C01 (tar)**: reading the archive the tar writer produces returns the source's tiles (every payload,
+    also empty ones), `None` elsewhere, and the declared format / compression -/
+theorem tar_roundtrip (K : Inflate) (s : WSource) (ok : WOk K s) :
+    ∃ r, openTar K (writeFiles s) = .ok r ∧ r.fmt = s.fmt ∧ r.comp = s.comp ∧
+      (∀ t ∈ s.levels.flatMap s.stream, getTile r t.1.1 t.1.2.1 t.1.2.2 = .ok (some t.2)) ∧
+      (∀ x y z, (∀ t ∈ s.levels.flatMap s.stream, t.1 ≠ (x, y, z)) → getTile r x y z = .ok none) := by
+  have hok : ∀ t ∈ (itemsOf s).filterMap Item.tile?, t.ok := by
+    rw [tiles_of_items]
+    intro t ht
+    rw [List.mem_map] at ht
+    obtain ⟨u, hu, rfl⟩ := ht
+    exact ok.valid u hu
+  have hm : ∀ p, Item.metaFile p ∈ itemsOf s → ∃ raw, K.run s.comp p = .ok raw := by
+    intro p hp
+    unfold itemsOf at hp
+    simp only [List.mem_cons, List.mem_map] at hp
+    rcases hp with hp | ⟨_, _, hp⟩
+    · injection hp with hp; rw [hp]; exact ok.metaOk
+    · cases hp
+  obtain ⟨s', h1, h2, _, h5⟩ := fold_items K s.fmt s.comp (tarStep K) (fun st p h => tarStep_meta K s.comp p st h)
+    (fun t st h hf hc => tarStep_eq_dirFile K s.fmt s.comp t h st hf hc) (itemsOf s) ⟨none, none, []⟩ hok hm (Or.inl rfl) (Or.inl rfl)
+  have hne : (itemsOf s).filterMap Item.tile? ≠ [] := by
+    rw [tiles_of_items]; intro e; exact ok.nonempty (by simpa using e)
+  obtain ⟨r, hr⟩ := reader_of_state s s' (by simpa using h2) (h5 hne) K ok
+  refine ⟨r, ?_, hr.2⟩
+  unfold openTar
+  rw [writeFiles_eq, h1]
+  exact hr.1
+
+/-- **C01 (directory)**: the same for the directory writer and reader (the reader walks the tree in
+    sorted order in the model; any order gives the same result) -/
+theorem dir_roundtrip (K : Inflate) (s : WSource) (ok : WOk K s) :
+    ∃ r, openDir K (writeFiles s) = .ok r ∧ r.fmt = s.fmt ∧ r.comp = s.comp ∧
+      (∀ t ∈ s.levels.flatMap s.stream, getTile r t.1.1 t.1.2.1 t.1.2.2 = .ok (some t.2)) ∧
+      (∀ x y z, (∀ t ∈ s.levels.flatMap s.stream, t.1 ≠ (x, y, z)) → getTile r x y z = .ok none) := by
+  -- sorting the files = mapping the sorted item list
+  let le : File → File → Bool := fun a b => decide (String.ofList (a.1.getD []) ≤ String.ofList (b.1.getD []))
+  have hsort : sortFiles (writeFiles s) =
+      ((itemsOf s).mergeSort (fun a b => le (Item.file s.fmt s.comp a) (Item.file s.fmt s.comp b))).map (Item.file s.fmt s.comp) := by
+    rw [writeFiles_eq]
+    unfold sortFiles
+    exact (List.map_mergeSort (r := fun a b => le (Item.file s.fmt s.comp a) (Item.file s.fmt s.comp b)) (s := le)
+      (f := Item.file s.fmt s.comp) (l := itemsOf s) (fun _ _ _ _ => rfl)).symm
+  generalize hits : (itemsOf s).mergeSort (fun a b => le (Item.file s.fmt s.comp a) (Item.file s.fmt s.comp b)) = its at hsort
+  have hperm : its.Perm (itemsOf s) := by rw [← hits]; exact List.mergeSort_perm _ _
+  have hpt : (its.filterMap Item.tile?).Perm ((itemsOf s).filterMap Item.tile?) := hperm.filterMap _
+  have hok : ∀ t ∈ its.filterMap Item.tile?, t.ok := by
+    intro t ht
+    have := hpt.mem_iff.1 ht
+    rw [tiles_of_items, List.mem_map] at this
+    obtain ⟨u, hu, rfl⟩ := this
+    exact ok.valid u hu
+  have hm : ∀ p, Item.metaFile p ∈ its → ∃ raw, K.run s.comp p = .ok raw := by
+    intro p hp
+    have hp' := hperm.mem_iff.1 hp
+    unfold itemsOf at hp'
+    simp only [List.mem_cons, List.mem_map] at hp'
+    rcases hp' with hp' | ⟨_, _, hp'⟩
+    · injection hp' with hp'; rw [hp']; exact ok.metaOk
+    · cases hp'
+  obtain ⟨s', h1, h2, _, h5⟩ := fold_items K s.fmt s.comp (dirStep K) (fun st p h => dirStep_meta K s.comp p st h)
+    (fun t st h hf hc => dirStep_tile K s.fmt s.comp t h st hf hc) its ⟨none, none, []⟩ hok hm (Or.inl rfl) (Or.inl rfl)
+  have hne : its.filterMap Item.tile? ≠ [] := by
+    intro e
+    rw [e] at hpt
+    have := List.Perm.eq_nil hpt.symm
+    rw [tiles_of_items] at this
+    exact ok.nonempty (by simpa using this)
+  obtain ⟨hf, hc⟩ := h5 hne
+  simp only [List.append_nil] at h2
+  -- the collected tiles are a permutation of the source's tiles
+  have hpl : s'.tiles.Perm (s.levels.flatMap s.stream) := by
+    rw [h2]
+    refine (List.reverse_perm _).trans ?_
+    have := (hpt.map fun t => (((t.x, t.y, t.z), t.payload) : (Nat × Nat × Nat) × Bytes))
+    refine this.trans ?_
+    rw [tiles_of_items, List.map_map]
+    exact List.Perm.of_eq (map_eta _)
+  have htl : s'.tiles ≠ [] := by
+    intro e; rw [e] at hpl; exact ok.nonempty (List.Perm.eq_nil hpl.symm)
+  have hfin : finish s' = .ok ⟨s.fmt, s.comp, s'.tiles⟩ := by
+    unfold finish
+    cases hst : s'.tiles with
+    | nil => exact absurd hst htl
+    | cons a as => simp only [hf, hc]
+  have hnd : (s'.tiles.map (·.1)).Nodup := ((hpl.map _).nodup_iff).2 ok.nodup
+  refine ⟨⟨s.fmt, s.comp, s'.tiles⟩, by unfold openDir; rw [hsort, h1]; exact hfin, rfl, rfl, ?_, ?_⟩
+  · intro t ht
+    unfold getTile
+    congr 1
+    exact find_unique _ hnd t (hpl.mem_iff.2 ht)
+  · intro x y z hno
+    unfold getTile
+    congr 1
+    rw [Option.map_eq_none_iff, List.find?_eq_none]
+    intro p hp
+    simp only [beq_iff_eq]
+    exact hno p (hpl.mem_iff.1 hp)
+
 /-! ### coverage ⊇ tiles (tar and directory readers share `cover`) -/
 
 theorem fold_cover_tiles (z : Nat) : ∀ (fl : List ((Nat × Nat × Nat) × Bytes)) (acc : Option BBox),
